@@ -427,7 +427,7 @@ def run_G(pid, tier, seed):
             except ValueError:
                 real = ("VALUEERROR",)
                 ex = None
-            except Exception as e:  # noqa: BLE001
+            except BaseException as e:  # noqa: BLE001
                 real = ("EXC", type(e).__name__)
                 ex = None
             stats["selections"] += 1
@@ -607,7 +607,7 @@ def _check_values(pid, sc, d, ex, ids_, pos, preds, got, inst, bad, case):
     before = dict(G.COUNTS)
     try:
         ret = G.call(d, ex)
-    except Exception as e:  # noqa: BLE001
+    except BaseException as e:  # noqa: BLE001
         bad("executor-run-raised", sc, case=case, exc=type(e).__name__, message=str(e)[:200])
         return
     executed = {i for i in range(n) if pos["n%d" % i] in got}
@@ -847,3 +847,159 @@ ASSUME_V = [
 reg("C01", ["VM.C01_core", "VM.C01_flat", "VM.traceBody_good", "TM.C09_bound"], run_V, ASSUME_V)
 reg("C20", ["VM.C01_core", "VM.C01_flat"], run_V, ASSUME_V)
 reg("C10", ["VM.C01_core", "VM.C01_flat"], run_V, ASSUME_V)
+
+
+# ---------------------------------------------------------------------------------------------
+# slice H engine (histories): C11, C15, C18
+# ---------------------------------------------------------------------------------------------
+import slice_h as H  # noqa: E402
+
+KINDS_H = {
+    "C11": ["call", "call", "exec", "setup", "setupsel", "fork"],
+    "C15": ["call", "call", "call", "exec", "rerun", "rerun", "config", "compose", "setup"],
+    "C18": ["cache", "cache", "call", "setup"],
+}
+
+
+def run_H(pid, tier, seed):
+    n_hist = 250 if tier == "quick" else 4000
+    max_len = 10 if tier == "quick" else 30
+    failures, samples = [], []
+    stats = dict(histories=0, operations=0, failing_calls=0, forks=0, reruns=0, refused=0, restarts=0,
+                 setup_entries=0, async_instances=0, op_kinds={})
+    distinct = set()
+    base = random.Random("%s/h/%d" % (pid, seed))
+    blocks, kept = [], {}
+    for k in range(n_hist):
+        rng = random.Random(base.randrange(1 << 62))
+        sc = H.gen(rng)
+        if pid == "C11" and not any(s["setup"] for s in sc["specs"]):
+            sc["specs"][0]["setup"] = True
+            sc["specs"][0]["preds"] = []
+            sc["specs"][0]["usearg"] = sc["specs"][0]["failx"] = False
+        ops = H.gen_ops(rng, sc, rng.randint(2, max_len), KINDS_H[pid])
+        H.SCRIPT_SEED[0] = rng.randrange(1 << 30)
+        try:
+            records, lines = H.run_history(sc, ops)
+        except BaseException as e:  # noqa: BLE001
+            failures.append(Failure("counterexample", "history-crashed:" + type(e).__name__, dict(sc=sc, ops=ops),
+                                    dict(message=str(e)[:300]), slice_="H"))
+            continue
+        stats["histories"] += 1
+        stats["async_instances"] += int(sc["is_async"])
+        hid = "h%d" % k
+        blocks.append("\n".join(H.header(hid, sc) + lines + ["E"]) + "\n")
+        kept[hid] = (sc, ops, records)
+        distinct.add(json.dumps([sc, ops], sort_keys=True))
+        if len(samples) < 2:
+            samples.append(dict(scenario=sc, operations=ops, protocol=blocks[-1].splitlines()))
+    out = common.run_driver("Hist", "".join(blocks))
+    ans = {}
+    for l in out:
+        w = l.split()
+        ans.setdefault(w[0], {})[int(w[1])] = w[2:]
+    for hid, (sc, ops, records) in kept.items():
+        n = sc["n"]
+        scen = dict(sc=sc, ops=ops)
+        seen_setup = {}
+        nfail0 = len(failures)
+        for rec in records:
+            if len(failures) > nfail0:
+                break   # the rest of this history runs on a state the first failure already tainted
+            op = rec["op"]
+            stats["operations"] += 1
+            stats["op_kinds"][op["op"]] = stats["op_kinds"].get(op["op"], 0) + 1
+            outc = rec["out"]
+            if outc[0] == "EXC":
+                sig = "%s-raised:%s" % (op["op"], outc[1])
+                failures.append(Failure("counterexample", sig, scen, dict(op=op, exc=outc), slice_="H"))
+                break
+            if rec.get("dups"):
+                failures.append(Failure("counterexample", "node-entered-twice-in-one-run", scen, dict(op=op, dups=rec["dups"]), slice_="H"))
+            if "line" not in rec:
+                continue
+            a = ans.get(hid, {}).get(rec["line"])
+            if a is None:
+                raise common.HarnessError("no model answer for %s line %d" % (hid, rec["line"]))
+            if a[0] == "FORK":
+                stats["forks"] += 1
+                continue
+            m_ok = a[0] == "OK"
+            ei, ri = a.index("E"), a.index("R")
+            m_ent = sorted(int(x) for x in a[ei + 1:ri])
+            m_vals = a[ri + 1:]
+            # C11 monitor: a setup node entered twice on one instance
+            for i in (rec.get("entered", []) if outc[0] == "OK" else []):
+                if sc["specs"][i]["setup"]:
+                    stats["setup_entries"] += 1
+                    key = (op.get("inst"), i)
+                    # forks: a copy made after the setup ran must not run it again either, but tracking
+                    # which copies inherit is the model's job; the monitor only flags same-instance repeats
+                    if key in seen_setup:
+                        failures.append(Failure("counterexample", "setup-node-ran-twice", scen, dict(op=op, node=i), slice_="H"))
+                    seen_setup[key] = True
+            if op["op"] == "rerun2":
+                stats["reruns"] += 1
+                if outc[0] == "REFUSED":
+                    stats["refused"] += 1
+                    continue
+                # it ran: must be a complete run of the selection
+                want = ("OK" if m_ok else "FAIL")
+                got = outc[0]
+                if got != want or (m_ok and [H.render(v) for v in outc[1]] != [v if v != "-" else "N" for v in m_vals]):
+                    failures.append(Failure("counterexample", "executor-rerun-after-%s-run-used-partial-graph" % ("failed" if op["first"] != "OK" else "successful"),
+                                            scen, dict(op=op, got=outc, model=a), slice_="H"))
+                continue
+            if outc[0] == "FAIL":
+                stats["failing_calls"] += 1
+                if m_ok:
+                    failures.append(Failure("correspondence", "H-real-failed-model-ok", scen, dict(op=op, model=a), slice_="H"))
+                continue
+            # real OK
+            if not m_ok:
+                failures.append(Failure("correspondence", "H-real-ok-model-failed", scen, dict(op=op, model=a, real=outc), slice_="H"))
+                continue
+            ent = rec.get("entered", [])
+            if op["op"] == "restart":
+                stats["restarts"] += 1
+                if outc[1] is not None and rec.get("first_value") is not None and op["restart"] == "same" \
+                        and [H.render(v) for v in outc[1]] != [H.render(v) for v in rec["first_value"]]:
+                    failures.append(Failure("counterexample", "restart-returns-different-value", scen,
+                                            dict(op=op, first=rec["first_value"], restart=outc[1]), slice_="H"))
+                recomputed = [i for i in ent if i in op["cached"]]
+                if recomputed:
+                    failures.append(Failure("counterexample", "restart-recomputed-cached-nodes(%s)" % op["mode"], scen,
+                                            dict(op=op, recomputed=recomputed, entered=ent), slice_="H"))
+                    continue
+            if ent != m_ent:
+                sig = "H-entered-set"
+                kind = "correspondence"
+                extra = [i for i in ent if i not in m_ent]
+                if any(sc["specs"][i]["setup"] for i in extra) and pid == "C11":
+                    kind, sig = "counterexample", "setup-node-ran-again"
+                failures.append(Failure(kind, sig, scen, dict(op=op, real=ent, model=m_ent), slice_="H"))
+                continue
+            if op["op"] in ("call", "exec", "rerun", "cache", "restart") and outc[1] is not None:
+                real_vals = [H.render(v) for v in outc[1]]
+                want = [v if v != "-" else "N" for v in m_vals]
+                if real_vals != want:
+                    kind = "counterexample" if pid == "C15" else "correspondence"
+                    failures.append(Failure(kind, "H-returned-value" if kind == "correspondence" else "call-result-depends-on-history",
+                                            scen, dict(op=op, real=real_vals, model=want), slice_="H"))
+    coverage = dict(evaluations=stats["operations"], distinct_nontrivial=len(distinct),
+                    rule="random DAGs (2-7 nodes, setup nodes chained/independent, argument-dependent failing nodes) x random "
+                         "operation histories over %s on one or more instances (deep copies), sync and async; each operation's "
+                         "outcome, entered-node set and returned value compared with the Lean history model; distinct = "
+                         "distinct (DAG, history)" % sorted(set(KINDS_H[pid])),
+                    samples=samples, traces_validated_against_impl=stats["operations"], **stats)
+    return coverage, failures, None
+
+
+ASSUME_H = [
+    "node functions are deterministic; a failing operation leaves the instance unchanged (checked on every history)",
+    "deep copy forks the instance state; pickle round-trips the plain values used (trusted)",
+    "setup nodes are not run concurrently for the first time (excluded by the property statements)",
+]
+reg("C11", ["VM.C11_setup_at_most_once", "VM.applyOp_res_keep", "VM.not_entered_of_res"], run_H, ASSUME_H)
+reg("C15", ["VM.runHistory_res_nonsetup", "VM.applyOp_res_nonsetup", "VM.C01_core"], run_H, ASSUME_H)
+reg("C18", ["VM.C18_restart_same", "VM.denote_seeded"], run_H, ASSUME_H)
